@@ -12,7 +12,7 @@ use serde_json::json;
 use std::net::IpAddr;
 use trippy_core::ProbeStatus;
 
-fn strat() -> BoxedStrategy<SimCase> {
+pub fn strat() -> BoxedStrategy<SimCase> {
     sim_case(&GenOpts {
         supported_only: true,
         sending_only: true,
@@ -124,7 +124,7 @@ pub fn check_wire(cfg: &TraceCfg, s: &SendRec, published: Option<&ProbeStatus>) 
     Ok(())
 }
 
-fn test(c: &SimCase, obs: &mut Obs) -> CheckResult {
+pub fn test(c: &SimCase, obs: &mut Obs) -> CheckResult {
     let log = run_trace(&c.cfg, &c.world);
     if !size_ok(&c.cfg) {
         // out-of-range sizes must be rejected with an error value before anything is sent
